@@ -76,7 +76,7 @@ def rec1(ctx):
                       'frame payload appended to the entry buffer without checking within_record: Middle/Last frames after a damaged frame would be glued to a stale prefix')
 
 
-@rule('REC2', ['C02', 'C08', 'C09', 'C12'], floor=2, template='must-store-on-error')
+@rule('REC2', ['C02', 'C08', 'C09', 'C12', 'C18'], floor=2, template='must-store-on-error')
 def rec2(ctx):
     """Every error exit of the record reader forgets the partially assembled entry."""
     for b in rec_bodies(ctx):
@@ -104,7 +104,7 @@ def rec3(ctx):
                           'an entry can be delivered without a closing Last/Full frame or outside an entry (%s)' % ('missing last-frame guard' if g1 else 'missing within_record guard'))
 
 
-@rule('REC4', ['C02', 'C08', 'C12'], floor=1, template='must-pass-through')
+@rule('REC4', ['C02', 'C08', 'C12', 'C18'], floor=1, template='must-pass-through')
 def rec4(ctx):
     """An entry starts only at a First/Full frame, with a cleared buffer."""
     for b in rec_bodies(ctx):
@@ -178,6 +178,23 @@ def rec5(ctx):
                         r = b.reach([edges['None'][1]])
                         if not any(x['point'] in r for x in some_exits):
                             none_ok = True
+            # polarity: Ok(Some) only when the positioning call said a record is available
+            avail = []
+            for c2 in b.calls:
+                if c2.node is not None and c2.dest_local() is not None and b.local_ty(c2.dest_local()).startswith('std::result::Result<bool,'):
+                    k1 = alias_paths(b, c2.dest_local())
+                    for c3 in b.calls:
+                        if c3.name.endswith('::branch') and c3.arg_local(0) in k1:
+                            k2 = alias_paths(b, c3.dest_local())
+                            for bj, blk in enumerate(b.blocks):
+                                if b.live[bj] and blk['term']['k'] == 'switch':
+                                    c = b.switch_cond(bj)
+                                    if c and c['kind'] == 'bool' and any(o[0] == 'place' and place_path(k2, o[2]) == [(('v', 'Continue'), ('f', '0'))] for o in c['origin']):
+                                        ed = b.bool_edges(bj)
+                                        if ed:
+                                            avail.append(ed[0])
+            ctx.check(any(b.edge_dominates(te, e['point']) for te in avail), '%s:some-when-available' % b.path, where(b, e['point']), 'Ok(Some) dominated by the true edge of the positioning call (a record is available)',
+                      'read_record can return Some(..) when the reader reported that no record is available (inverted test): the end of the log would be read as a record, or records as end of log')
             ctx.check(none_ok, '%s:none-is-corruption' % b.path, where(b, e['point']), 'a buffer deserialize rejects becomes Err(Corruption)',
                       'a buffer rejected by deserialize does not become Err(Corruption)')
     if n == 0:
@@ -350,6 +367,26 @@ def fr3(ctx):
                                   'a header can be returned although Header::deserialize rejected it')
     if n == 0:
         ctx.missing('deserialize-user', 'no FrameReader body calls Header::deserialize')
+    # an all-zero header means end of log: NotAvailable only under the true edge of `header_bytes == [0; HEADER_LEN]`
+    for b in ctx.f.bodies.values():
+        if not b.path.startswith(FRD) or not any(cs.node == hd.id for cs in b.calls):
+            continue
+        zeros = []
+        for (zbi, zc, zte, zfe, zcs) in b.switches_on_call(lambda c: 'PartialEq<[u8;' in c.name or 'equality::<impl' in c.name):
+            # normalise to the edge on which the bytes ARE all zero
+            if zcs.name.endswith('::ne'):
+                zte, zfe = zfe, zte
+            zeros.append((zbi, zc, zte, zfe, zcs))
+        na = [e for e in b.exits() if e['kind'] == 'err' and e.get('variant') == 'NotAvailable']
+        for e in na:
+            ok = any(b.edge_dominates(te, e['point']) for (_bi, _c, te, _fe, _cs) in zeros)
+            ctx.check(ok, '%s:end-of-log-is-zero-header' % b.path, where(b, e['point']), 'NotAvailable only when the header bytes are all zero',
+                      'the end-of-log signal (NotAvailable) is not tied to an all-zero header: valid frames could be taken for the end of the log or vice versa')
+        dcalls = [cs for cs in b.calls if cs.node == hd.id]
+        for cs in dcalls:
+            okz = any(b.edge_dominates(fe, cs.point) for (_bi, _c, _te, fe, _cs) in zeros)
+            ctx.check(okz, '%s:decode-only-nonzero' % b.path, where(b, cs.point), 'a header is decoded only when its bytes are not all zero',
+                      'a header is decoded on the all-zero edge')
 
 
 def progress_points(ctx, b):
@@ -504,7 +541,7 @@ def fr7(ctx):
         ctx.missing('next_block-body', 'no FrameReader body calls BlockRead::next_block')
 
 
-@rule('FR8', ['C08', 'C02', 'C12'], floor=2, template='no-reach')
+@rule('FR8', ['C08', 'C02', 'C12', 'C18'], floor=2, template='no-reach')
 def fr8(ctx):
     """Quarantining a block is always reported: after `block_corrupted = true` the call cannot return a
     frame/header, so the record reader learns that frames were skipped and abandons the open entry."""
@@ -526,3 +563,38 @@ def fr8(ctx):
                       'after quarantining a block the frame reader can still return successfully (%s): frames are skipped silently and a multi-frame entry open in the record reader gets spliced with unrelated frames' % (b.loc(oks[0]['point']) if oks else 'no Corruption exit'))
     if n == 0:
         ctx.missing('quarantine-stores', 'no `block_corrupted = true` store found')
+
+
+@rule('FR5b', ['C07', 'C08'], floor=1, template='must-store')
+def fr5b(ctx):
+    """A returned frame has been consumed entirely: the cursor advanced by HEADER_LEN and by the payload length."""
+    n = 0
+    from core import op_const_named
+    for b in fr_check_bodies(ctx):
+        fl = flow_of(b)
+        hdr_adv, len_adv = [], []
+        for (p, pl, rv) in stores_to(b, 'FrameReader', 'cursor'):
+            if rv['k'] != 'use' or rv['op']['k'] not in ('copy', 'move'):
+                continue
+            ol = rv['op']['place']['l']
+            for (dp, kind, data) in b.defs.get(ol, []):
+                if kind == 'assign' and data['rv']['k'] == 'binop' and data['rv']['op'].startswith('Add'):
+                    a, bb = data['rv']['a'], data['rv']['b']
+                    if (op_const_named(a) or '').endswith('HEADER_LEN') or (op_const_named(bb) or '').endswith('HEADER_LEN'):
+                        hdr_adv.append(p)
+                    else:
+                        t_len = set()
+                        for cs in b.calls:
+                            if cs.node is not None and ctx.f.bodies[cs.node].path.startswith('frame::header::Header::') and ctx.f.bodies[cs.node].ret_ty == 'usize':
+                                t_len |= fl.forward(set(fl.call_result_nodes(cs)), skip_mem=True)
+                        if fl.op_tainted(a, t_len) or fl.op_tainted(bb, t_len):
+                            len_adv.append(p)
+        for e in b.exits():
+            if e['kind'] == 'ok':
+                n += 1
+                o1 = any(b.dominates(p, e['point']) for p in hdr_adv)
+                o2 = any(b.dominates(p, e['point']) for p in len_adv)
+                ctx.check(o1 and o2, '%s:consumed' % b.path, where(b, e['point']), 'Ok(frame) dominated by cursor += HEADER_LEN and cursor += header.len()',
+                          'a frame can be returned without the cursor having moved past its %s: the next read would start inside this frame' % ('header' if not o1 else 'payload'))
+    if n == 0:
+        ctx.missing('frame-exit', 'no Ok exit in the frame reading body')
